@@ -139,6 +139,10 @@ def m_sender_send(c, call, tx, val):
 def m_sender_is_closed(c, call, tx): return BOOL(deref(tx).closed)
 
 
+@reg('UnboundedSender::closed', 'Sender::closed')
+def m_sender_closed(c, call, tx): return EnvFut('closed', tx=deref(tx))
+
+
 @reg('UnboundedReceiver::try_recv', 'Receiver::try_recv')
 def m_try_recv(c, call, rx):
     """non-blocking receive: whatever the lane's `recv` environment would hand out right now"""
